@@ -37,6 +37,8 @@ def box(name):
         return dict(no_inputs=True, fam=B(2, 'xy', 2, 2, render='tok', mods=mods), alpha=('X', 'Y'))
     if base == 'x2l':
         return dict(no_inputs=True, fam=B(2, 'xy', (1, 2), (3, 2), render='tok', mods=mods), alpha=('X', 'Y'))
+    if base == 'x2ms':      # several start symbols
+        return dict(no_inputs=True, fam=B(2, 'xy', 2, 2, render='tok'), alpha=('X', 'Y'), starts=('start', 'a'))
     if base == 'k3':
         return dict(no_inputs=True, fam=B(3, 'x', (2, 2, 1), 2, render='tok', mods=mods), alpha=('X',))
     if base == 'k3y':
@@ -48,9 +50,9 @@ def box(name):
 
 TIERS = {
     'quick': [('x1', 1, 4), ('x1/1', 1, 4), ('x2', 8, 4), ('x2/2', 32, 4), ('k3', 64, 4), ('k3/12', 64, 4), ('k3y', 32, 4),
-              ('x2l', 8, 4), ('k3p/12', 1, 3), ('k3p/22', 1, 3), ('k3p/1n', 1, 3)],
+              ('x2l', 8, 4), ('x2ms', 16, 4), ('k3p/12', 1, 3), ('k3p/22', 1, 3), ('k3p/1n', 1, 3)],
     'thorough': [('x1', 1, 5), ('x1/1', 1, 5), ('x1/2', 1, 5), ('x2', 1, 5), ('x2/1', 4, 4), ('x2/2', 4, 4), ('k3', 4, 4),
-                 ('k3/12', 8, 4), ('k3/21', 8, 4), ('k3/11', 8, 4), ('k3y', 2, 4), ('x2l', 1, 5),
+                 ('k3/12', 8, 4), ('k3/21', 8, 4), ('k3/11', 8, 4), ('k3y', 2, 4), ('x2l', 1, 5), ('x2ms', 1, 4),
                  ('k3p/12', 1, 3), ('k3p/22', 1, 3), ('k3p/1n', 1, 3), ('k3p/21', 1, 3), ('k3p/11', 1, 3)],
 }
 
@@ -287,6 +289,80 @@ def check(g, gi, boxname, b, inputs, res, only=None):
                                'accepted_token_strings': [list(k) for k, v in accepted.items() if v][:4]})
 
 
+def check_multistart(g, gi, boxname, b, res, only=None):
+    """Lark(start=[...]): one table with several start states.  For every start symbol the real automaton entered through
+    parse_interactive(start=s) is walked against the reference automaton of the grammar with that start symbol."""
+    gtext = g.text()
+    L = b['L']
+    terms = b['alpha']
+    starts = b['starts']
+    if refsem.productive(g) != set(g.rules):
+        res['counters']['multi-start: non-reduced grammar skipped'] += 1
+        return
+    ref_all = reflalr.RefLALR(g, starts=starts)        # ONE automaton with a root production per start symbol
+    refs = {s_: ref_all for s_ in starts}
+    case0 = {'box': boxname, 'gidx': gi, 'grammar': gtext, 'starts': list(starts)}
+
+    def bad(kind, cause, exp, got, **extra):
+        res['viol'].append({'kind': kind, 'cause': cause, 'case': dict(case0, **extra), 'expected': exp, 'observed': got})
+    any_rr = any(r_.rr_conflicts() for r_ in refs.values())
+    r = larkio.build(gtext, parser='lalr', start=list(starts))
+    res['evals'] += 1
+    if r[0] != 'ok':
+        if r[0] == 'exc' and isinstance(r[1], GrammarError) and any_rr:
+            res['counters']['reduce/reduce conflict reported (agrees with reference)'] += 1
+        else:
+            bad('spurious-conflict' if r[0] == 'exc' else 'construction-hang', 'conflict-report', 'a parser (no reduce/reduce conflict from any start symbol)', repr(r[1])[:300])
+        return
+    if any_rr:
+        bad('conflict-not-reported', 'conflict-report', 'GrammarError', 'parser constructed')
+        return
+    p = r[1]
+    for s_ in starts:
+        ref = refs[s_]
+        frontier = [(p.parse_interactive(start=s_).as_immutable(), ref.sim(start=s_), ())]
+        seen = set()
+        while frontier:
+            nxt = []
+            for ip, sim, toks in frontier:
+                res['states'] += 1
+                res['nontrivial'] += 1 if toks else 0
+                ch = {k for k in ip.choices() if k.isupper() or k == '$END'}
+                want_ch = {sym_name(x) for x in sim.terminals()}
+                if ch != want_ch:
+                    bad('choices', 'choices', sorted(want_ch), sorted(ch), start=s_, tokens=list(toks))
+                e = util.timed(lambda: ip.as_mutable().feed_eof(), 3)
+                res['transitions'] += 1
+                want = sim.copy().feed(reflalr.END) == 'accept'
+                if (e[0] == 'ok') != want:
+                    bad('eof-vs-automaton', 'automaton', 'accept' if want else 'reject', e[0], start=s_, tokens=list(toks))
+                if len(toks) >= L:
+                    continue
+                for t in terms:
+                    f = util.timed(lambda: ip.feed_token(Token(t, t.lower())), 3)
+                    res['transitions'] += 1
+                    res['traces'] += 1
+                    sim2 = sim.copy()
+                    want = sim2.feed(('tok', t)) == 'shift'
+                    if (f[0] == 'ok') != want:
+                        bad('feed-vs-automaton', 'automaton', 'shift' if want else 'error', f[0], start=s_, tokens=list(toks) + [t])
+                        continue
+                    if f[0] == 'ok':
+                        key = tuple(f[1].parser_state.state_stack)
+                        if key not in seen:
+                            seen.add(key)
+                            nxt.append((f[1], sim2, toks + (t,)))
+            frontier = nxt
+        # parse(text, start=s) agrees
+        for w in util.strings([t.lower() for t in terms], L):
+            pr = larkio.parse(p, w, timeout=3, start=s_)
+            res['evals'] += 1
+            sm = ref.sim(start=s_)
+            want = all(sm.feed(('tok', c.upper())) == 'shift' for c in w) and sm.feed(reflalr.END) == 'accept'
+            if (larkio.outcome(pr) == 'accept') != want:
+                bad('parse-vs-automaton', 'automaton', 'accept' if want else 'reject', larkio.outcome(pr), start=s_, input=w)
+
+
 def _sim_loops(ref, toks):
     s = ref.sim()
     for t in toks:
@@ -323,7 +399,10 @@ _run = FamRun(box, TIERS, None, chunk=64)
 
 def _check(g, gi, boxname, b, inputs, res, only=None):
     b = dict(b, L=_check.L)
-    check(g, gi, boxname, b, inputs, res, only)
+    if b.get('starts'):
+        check_multistart(g, gi, boxname, b, res, only)
+    else:
+        check(g, gi, boxname, b, inputs, res, only)
 
 
 _run.check = _check
